@@ -253,6 +253,26 @@ def real_table(case, mode, expect):
                             bad = "per_subject_lookup: subject %s %s/%s -> %r, recorded %r" % (subj[s], g, m, d[g][m], cell[(s, gi, mi)])
     except Exception as e:
         bad = "summary_defined_with_a_finite_value: %s: %s" % (type(e).__name__, e)
+    if bad is None and mode == "violation" and "std" in str((expect or {}).get("obligation")):
+        # the symbolic run found the reported std not to be the documented population std as a TERM; on these (small) values floating
+        # point hides the difference, so a table with the same missing cells is tried whose values are distinct and shifted by 2^27 (another table the statement covers)
+        from fractions import Fraction
+        shift = float(2 ** 27)
+        cell2 = {k: (None if v is None else v + shift + (3 * k[0] + 2 * k[1] + k[2] + 1) / 10) for k, v in cell.items()}     # and made distinct
+        try:
+            st3 = Panoptica_Statistic(list(subj), {g: {m: [cell2[(s_, gi, mi)] for s_ in range(S)] for mi, m in enumerate(mets)} for gi, g in enumerate(groups)})
+            for gi, g in enumerate(groups):
+                for mi, m in enumerate(mets):
+                    pv = [Fraction(cell2[(s_, gi, mi)]) for s_ in range(S) if cell2[(s_, gi, mi)] is not None]
+                    if len(pv) < 2:
+                        continue
+                    mean = sum(pv) / len(pv)
+                    sd = math.sqrt(sum((x - mean) ** 2 for x in pv) / len(pv))
+                    got = st3.get_summary(g, m).std
+                    if not close(got, sd, 1e-6):
+                        bad = "std_is_population_std_of_present_values: %s/%s std %r, population std of %s is %r" % (g, m, got, [float(x) for x in pv], sd)
+        except Exception as e:
+            bad = "summary_defined_with_a_finite_value: %s: %s" % (type(e).__name__, e)
     return {"match": True, "violates": bad is not None, "reason": bad, "observed": None}
 
 
